@@ -1,26 +1,35 @@
 ------------------------------- MODULE Crash -------------------------------
-(* Crash atomicity of git-bug's write paths (C06).  A call issues a sequence of storage mutations:
+(* Crash atomicity of git-bug's write paths (C06).  A call issues a sequence of storage mutations [kind, ent]:
      "blob" "tree" "commit"         git objects (invisible until a ref points at them)
-     "ref"                          the update of the entity's ref
-     "fs-open-trunc" "fs-write" "fs-close" "fs-rename"    file operations on a clock file
+     "ref"                          the update of the local ref of entity `ent` (what publishes its new state)
+     "rmref"                        the removal of the local ref of entity `ent`
+     "rmtrack"                      the removal of a remote-tracking ref (no entity state changes)
+     "fs-open-trunc" "fs-write" "fs-close" "fs-rename" "fs-open-temp"    file operations on a clock file
+   A call may touch several entities (a pull merges every entity of the remote, one after the other).
    The process may die before any mutation takes effect ("blob" .. "ref", "fs-rename", "fs-close" are atomic), after an
    "fs-open-trunc" took effect (the file is then empty) or in the middle of an "fs-write" (a proper prefix is on disk).
    Crash point k means: mutations 1..k-1 happened, mutation k was interrupted; k = n+1: the call completed.          *)
 EXTENDS Integers, Sequences, FiniteSets
 
 Objs == {"blob", "tree", "commit"}
-Refs == {"ref"}
+Refs == {"ref", "rmref"}
 
-(* state of the entity's ref after the crash *)
-RefsDone(muts, k) == Cardinality({i \in 1..(k - 1) : i <= Len(muts) /\ muts[i] \in Refs})
-RefsTotal(muts) == Cardinality({i \in DOMAIN muts : muts[i] \in Refs})
-Expected(muts, k) == IF RefsDone(muts, k) = RefsTotal(muts) THEN "post" ELSE IF RefsDone(muts, k) = 0 THEN "pre" ELSE "mixed"
+IsRef(m) == m.kind \in Refs
+Ents(muts) == {muts[i].ent : i \in {j \in DOMAIN muts : IsRef(muts[j])}}
+
+(* state of one entity after the crash: decided by the mutations of its own ref alone *)
+RefsDone(muts, k, e) == Cardinality({i \in 1..(k - 1) : i <= Len(muts) /\ IsRef(muts[i]) /\ muts[i].ent = e})
+RefsTotal(muts, e) == Cardinality({i \in DOMAIN muts : IsRef(muts[i]) /\ muts[i].ent = e})
+Expected(muts, k, e) ==
+  IF RefsTotal(muts, e) = 0 THEN "unchanged"
+  ELSE IF RefsDone(muts, k, e) = RefsTotal(muts, e) THEN "post"
+  ELSE IF RefsDone(muts, k, e) = 0 THEN "pre" ELSE "mixed"
 
 (* state of the clock file being written when the process died: "ok" (old or new value, complete), "empty", "torn" *)
 RECURSIVE ClockFile(_, _, _)
 ClockFile(muts, k, st) ==
   IF muts = <<>> \/ k = 0 THEN st
-  ELSE LET m == Head(muts) IN
+  ELSE LET m == Head(muts).kind IN
        IF k = 1                                   \* the interrupted mutation
        THEN (IF m = "fs-open-trunc" THEN "empty" ELSE IF m = "fs-write" /\ st = "empty" THEN "torn" ELSE st)
        ELSE ClockFile(Tail(muts), k - 1,
@@ -29,19 +38,20 @@ ClockFile(muts, k, st) ==
                       ELSE IF m = "fs-rename" THEN "ok"
                       ELSE st)
 
-(* what makes a path crash-safe: objects are all written before the single ref update that publishes them, and the
-   clock file is only ever replaced atomically *)
-ObjsBeforeRef(muts) == \A i, j \in DOMAIN muts : (muts[i] \in Objs /\ muts[j] \in Refs) => i < j
-SingleRef(muts) == RefsTotal(muts) <= 1
-AtomicClock(muts) == \A i \in DOMAIN muts : muts[i] \notin {"fs-open-trunc", "fs-write"}
+(* what makes a path crash-safe: each entity is published by a single mutation of its ref, every object written is
+   followed by the ref mutation that publishes it, and a clock file is only ever replaced atomically *)
+ObjsBeforeRef(muts) == \A i \in DOMAIN muts : muts[i].kind \in Objs => \E j \in DOMAIN muts : j > i /\ IsRef(muts[j])
+SingleRef(muts) == \A e \in Ents(muts) : RefsTotal(muts, e) <= 1
+AtomicClock(muts) == \A i \in DOMAIN muts : muts[i].kind \notin {"fs-open-trunc", "fs-write"}
 WellFormed(muts) == ObjsBeforeRef(muts) /\ SingleRef(muts) /\ AtomicClock(muts)
 
-(* C06 on one record (scenario, crash point, what was found after re-opening) *)
+(* C06 on one record (scenario, crash point, what was found after re-opening): rec.outcome maps every entity present
+   before the call, after the uninterrupted call or after the crash to "unchanged" / "pre" / "post" / "other" *)
 Safe(muts, k, rec) ==
   /\ rec.openerr = "" /\ rec.readerr = ""                 \* the repository opens again, every entity is readable
-  /\ rec.outcome = Expected(muts, k)                       \* old state or new state, decided by the ref update alone
-  /\ rec.outcome \in {"pre", "post"}
+  /\ Ents(muts) \subseteq DOMAIN rec.outcome
+  /\ \A e \in DOMAIN rec.outcome : rec.outcome[e] = Expected(muts, k, e) /\ rec.outcome[e] \in {"unchanged", "pre", "post"}
   /\ rec.clockok                                           \* clocks usable and not behind anything stored
   /\ ClockFile(muts, k, "ok") = "ok"
-  /\ (rec.outcome = "pre" /\ RefsTotal(muts) > 0) => rec.redo = "post"   \* repeating the call completes it
+  /\ (\E e \in DOMAIN rec.outcome : rec.outcome[e] = "pre") => rec.redo = "post"   \* repeating the call completes it
 =============================================================================
